@@ -683,6 +683,10 @@ class FFTFunc(Op):
             d["axis"] = tape.draw(info.ndim, "fft.ax")
             if tape.chance(1, 4, "fft.neg"):
                 d["axis"] = d["axis"] - info.ndim
+            if tape.chance(1, 4, "fft.n"):
+                L = info.shape[d["axis"]]
+                d["n"] = max(1, L + [-1, 1, 3, -2][tape.draw(4, "fft.nval")])
+        d["norm"] = [None, "ortho", "forward", "backward"][tape.weighted([5, 1, 1, 1], "fft.norm")]
         return d
 
     def call(self, pb, z, args, desc):
@@ -691,9 +695,14 @@ class FFTFunc(Op):
         real_in = desc["name"] in ("rfft", "rfft2", "rfftn", "ihfft")
         if real_in and np.dtype(x.dtype).kind == "c":
             x = x.real
+        kw = {}
+        if desc.get("norm") is not None:
+            kw["norm"] = desc["norm"]
+        if "n" in desc:
+            kw["n"] = desc["n"]
         if "axes" in desc:
-            return f(x, axes=tuple(desc["axes"]))
-        return f(x, axis=desc["axis"])
+            return f(x, axes=tuple(desc["axes"]), **kw)
+        return f(x, axis=desc["axis"], **kw)
 
 
 @register
